@@ -46,9 +46,11 @@ package store
 //@   ghost puts int = 0
 //@   call datastore.NewKey
 //@     assert[C19:part-key-is-name-dot-part-i] arg1 == "blobParts" && arg2 == sprintf("%s.part%d", blobName, i) && arg2 == ID
+//@   ghost failures int = 0
 //@   send errs
 //@     assert[C19:only-errors-are-queued] arg1 != nil
 //@     assert[C19:error-queue-never-blocks-a-writer] chlen(errs) < chcap(errs)
+//@     do failures = failures + 1
 //@   recv errs
 //@     assume ret0 != nil
 //@   go writeBlobParts$1
@@ -57,10 +59,12 @@ package store
 //@     do puts = puts + 1
 //@   ensures[C19:one-part-per-window-in-order] r1 == nil ==> len(r0) == len(bytes) / 1000000 + 1 && puts == len(r0) && forall(j, 0, len(r0), r0[j] == sprintf("%s.part%d", blobName, j))
 //@   ensures[C19:no-names-on-error] r1 != nil ==> len(r0) == 0
+//@   ensures[C19:success-only-if-no-part-write-reported-an-error] r1 == nil ==> failures == 0
 //@   loop 1
 //@     at for i := 0; i < partCount; i++
 //@     invariant[C19:split-progress] 0 <= i && i <= partCount && partCount == len(bytes) / 1000000 + 1 && len(partNames) == i && puts == i && errs != nil && !closed(errs) && chcap(errs) == partCount && 0 <= chlen(errs) && chlen(errs) <= i
 //@     invariant[C19:names-in-order] forall(j, 0, i, partNames[j] == sprintf("%s.part%d", blobName, j))
+//@     invariant[C19:every-reported-failure-is-queued] failures == chlen(errs)
 
 //@ func newBlob props(C19,C07)
 //@   assigns nothing
@@ -77,6 +81,9 @@ package store
 //@     assert[C19:fetch-parts-in-listed-order] fetched == 0 && len(arg1) == len(bp.Parts) && len(parts) == len(bp.Parts) && forall(j, 0, len(bp.Parts), keyKind(arg1[j]) == "blobParts" && keyName(arg1[j]) == bp.Parts[j])
 //@     assume forall(j, 0, len(parts), parts[j] != nil)
 //@     do fetched = fetched + 1
+//@     do fetchFailed = ret0 != nil
+//@   ghost fetchFailed bool = false
+//@   ensures[C19:bytes-only-from-a-fetch-that-succeeded] r1 == nil && len(old(bp.Parts)) > 0 ==> fetched == 1 && !fetchFailed
 //@   ensures[C19:inline-only] len(old(bp.Parts)) == 0 ==> r1 == nil && r0 == old(bp.Inlined)
 //@   loop 1
 //@     at for _, part := range bp.Parts
